@@ -5,7 +5,8 @@ correspondence run): flow conservation – when the on-tree arcs (with the virtu
 form a forest and the gcda carries the counters of a conserved flow, `count_on_tree` recovers the
 flow on every arc and every block counter is the block's inflow; the instrumented lines come from
 the notes only; a function is executed iff its entry arc was taken; a line that lives in one block
-gets that block's count.
+gets that block's count – also end to end, from the gcda records to the line count `compute`
+reports (Props/C08EndToEnd.lean: `C08_line_count_single_block_end_to_end`, `…_k_runs`).
 What is only CHECKED (harness/c08): that `Gcno::compute` reports the same per-line counts,
 instrumented sets and executed flags as the external program `llvm-cov gcov` on generated C
 programs – no theorem can quantify over an external tool.
@@ -13,6 +14,7 @@ programs – no theorem can quantify over an external tool.
 import GrcovModel.Lemmas.GcnoFinal
 import GrcovModel.Lemmas.GcnoFlow
 import GrcovModel.Lemmas.GcnoCert
+import GrcovModel.Props.C08EndToEnd
 namespace Grcov.Props.C08
 open Grcov Grcov.Gcno AList Outcome
 
